@@ -279,3 +279,7 @@ def run(ctx):
     # document last, over the registry and over a caller-supplied store, so a reference into its base URI reaches its own document
     from .c15 import rule_seeding
     rule_seeding(ctx, "R18.7")
+    # R18.8: check_schema (run by jsonschema.validate on every call) builds its metaschema validator afresh each time: a validator
+    # kept on the class would be one hidden resolver shared by every caller of that class
+    from .c11 import rule_wiring
+    rule_wiring(ctx, "R18.8")
